@@ -42,7 +42,8 @@ class Containers(object):
             x = np.array(events, dtype=np.float64).reshape(len(events), C)
         else:
             path = os.path.join(self.dir, 's.fcs')
-            fcsgen.write_sample(path, events, ['c%d' % (i + 1) for i in range(C)], [R] * C, bits=8, pne=['0,0'] * C,
+            big = any(v >= R for e in events for v in e)
+            fcsgen.write_sample(path, events, ['c%d' % (i + 1) for i in range(C)], [4096 if big else R] * C, bits=16 if big else 8, pne=['0,0'] * C,
                                 pnv=[str(100 * (i + 1)) for i in range(C)])
             with warnings.catch_warnings():
                 warnings.simplefilter('ignore')
@@ -145,10 +146,13 @@ def main(chk, replay=None):
         return
     C = Containers()
     neg = False
-    plan = [('start_end', 0), ('high_low', 1 if chk.quick else 2), ('ellipse', 1 if chk.quick else 2)]
+    plan = [('start_end', 0), ('high_low', 1 if chk.quick else 2), ('ellipse', 1 if chk.quick else 2),
+            ('ellipse_log', 1 if chk.quick else 2)]
+    if [float(np.log10(v)) for v in (1.0, 10.0, 100.0, 1000.0)] != [0.0, 1.0, 2.0, 3.0]:
+        raise tlc.MachineryError('log10 of the powers of ten is not exact on this platform')
     for gate, maxn in plan:
         cfg = ('SPECIFICATION Spec\nCONSTANTS Gate = "%s"\nMaxN = %d\nINVARIANT MaskLength\nINVARIANT StartEndCount\n'
-               'INVARIANT HighLowMonotone\n') % (gate, maxn)
+               'INVARIANT HighLowMonotone\nINVARIANT UndefNeverInside\n') % (gate, maxn)
         res = tlc.require_ok(tlc.run_tlc('Gen_C08', cfg, dump=True), 'Gen_C08')
         chk.add_tlc(res, 'Gen_C08[%s]' % gate)
         for st in res.dump_states():
@@ -172,6 +176,17 @@ def main(chk, replay=None):
                 call = lambda fo: FlowCal.gate.high_low(x, channels=ch, full_output=fo, **kw)   # noqa
                 label = 'high_low/%s/%s/hi=%s,lo=%s' % (kind, form['t'], 'default' if hi == NONE else 'given',
                                                         'default' if lo == NONE else 'given')
+            elif gate == 'ellipse_log':
+                ev, kind, form, (cx, cy, a, b) = scn
+                # exponent codes -> values; a coordinate without logarithm is 0, or negative where the container allows
+                def val(code, pos):
+                    if code == -1:
+                        return -5 if (kind == 'array-float' and pos % 2) else 0
+                    return 10 ** code
+                x = C.get([[val(c, p) for p, c in enumerate(e)] for e in ev], kind, 3)
+                ch = render_form(form)
+                call = lambda fo: FlowCal.gate.ellipse(x, ch, center=[cx, cy], a=a, b=b, theta=0, log=True, full_output=fo)   # noqa
+                label = 'ellipse-log/%s/%dch' % (kind, len(form['xs']))
             else:
                 ev, kind, form, (cx, cy, a, b) = scn
                 x = C.get([list(e) for e in ev], kind, 3)
